@@ -121,8 +121,49 @@ def case_W(case):
     return [[Fr(x) * c for x in row] for row in case['W']]
 
 
+LARGE_N = 40       # beyond this size the Lean model is too slow: runs are judged by the Python oracles only
+
+
+def _same_mask(ci):
+    a = np.asarray([int(x) for x in ci])
+    return a[:, None] == a[None, :]
+
+
+def _part_fast(Wp, M, g):
+    """(sum_{same} Wp, sum_{same} kout_i*kin_j, total) in exact integer arithmetic (object arrays of Python ints)"""
+    ko = Wp.sum(axis=1); ki = Wp.sum(axis=0)
+    return int((Wp * M).sum()), int((np.outer(ko, ki) * M).sum()), int(Wp.sum())
+
+
+def true_q_fast(case, ci):
+    """the same definitions as below, vectorised over an n x n same-module mask with exact Python-int arithmetic
+    (used for n > LARGE_N, unscaled integer weights; cross-checked against the loop version in `_selftest_oracles`)"""
+    r = case['routine']; g = Fr(case['gamma'])
+    W = np.array(case['W'], dtype=object); M = _same_mask(ci).astype(object)
+    o = case.get('opt')
+    if r in UND or r in DIR or (r == 'community_louvain' and o == 'modularity'):
+        a, b, s = _part_fast(W, M, g)
+        return Fr(a, s) - g * Fr(b, s * s)
+    if r == 'community_louvain' and o == 'potts':
+        s = int(W.sum())
+        return (int((W * M).sum()) - g * int(((W == 0).astype(object) * M).sum())) / Fr(s)
+    if r == 'community_louvain' and o == 'custom':
+        return Fr(int((np.array(case['B'], dtype=object) * M).sum()), int(W.sum()))
+    qtype = {'negative_sym': 'gja', 'negative_asym': 'sta'}.get(o, o) if r == 'community_louvain' else o
+    if r == 'modularity_und_sign':
+        g = Fr(1)
+    W0 = np.where(W > 0, W, 0).astype(object); W1 = np.where(W < 0, -W, 0).astype(object)
+    a0, b0, s0 = _part_fast(W0, M, g); a1, b1, s1 = _part_fast(W1, M, g)
+    d0, d1 = sign_scales(qtype, s0, s1)
+    q0 = (a0 - g * Fr(b0, s0)) if s0 else Fr(0)
+    q1 = (a1 - g * Fr(b1, s1)) if s1 else Fr(0)
+    return d0 * q0 - d1 * q1
+
+
 def true_q(case, ci):
     """the quality function the routine of `case` claims to optimise / report, evaluated on partition ci"""
+    if len(case['W']) > LARGE_N and not case.get('scale') and all(isinstance(x, int) for x in case['W'][0]):
+        return true_q_fast(case, ci)
     r = case['routine']; W = case_W(case); g = Fr(case['gamma'])
     if r in UND:
         return q_und(W, ci, g)
@@ -646,6 +687,41 @@ def g_sign(rs, n, dens, wmax, mode=None):
     return A
 
 
+def g_planted(rs, n, base, group, directed=False, signed=False, wmax=3, p_in=.9, p_mid=.5, n_far=None):
+    """sparse hierarchical planted partition: base modules of `base` nodes (dense inside), `group` consecutive base modules
+    form a super-module (a few links between its base modules), very few links between super-modules -> several Louvain levels.
+    Returns (A, base labels 1..k)."""
+    A = np.zeros((n, n)); perm = rs.permutation(n)
+    lab = np.zeros(n, dtype=int)
+    mods = [perm[i:i + base] for i in range(0, n, base)]
+    w = lambda: float(rs.randint(1, wmax + 1))
+
+    def link(i, j, neg=False):
+        v = -w() if neg else w()
+        A[i, j] = v
+        if not directed or rs.rand() < .5:
+            A[j, i] = v
+
+    for k, m in enumerate(mods):
+        lab[m] = k + 1
+        for a in range(len(m)):
+            for b in range(a + 1, len(m)):
+                if rs.rand() < p_in:
+                    link(m[a], m[b]) if rs.rand() < .5 else link(m[b], m[a])
+    for k in range(len(mods)):
+        for k2 in range(k + 1, len(mods)):
+            if k // group == k2 // group and rs.rand() < p_mid:
+                link(rs.choice(mods[k]), rs.choice(mods[k2]))
+    nsup = (len(mods) + group - 1) // group
+    for _ in range(n_far if n_far is not None else max(1, nsup)):
+        k, k2 = rs.randint(len(mods)), rs.randint(len(mods))
+        if k // group != k2 // group:
+            link(rs.choice(mods[k]), rs.choice(mods[k2]), neg=signed and rs.rand() < .6)
+    if not directed:
+        A = np.triu(A, 1); A = A + A.T
+    return A, lab.tolist()
+
+
 def to_list(A):
     return [[int(x) for x in r] for r in np.asarray(A)]
 
@@ -943,6 +1019,61 @@ def gen_cases(rs, tier, routines=None):
             add(r, A, opt, encode_partition(rs, _rg_canon(rs.randint(0, max(1, n), size=n).tolist())), gamma=g)
             if r != 'modularity_und_sign':
                 add(r, A, opt, None, gamma=g)
+    # (m) SIZE axis: sizes on both sides of the thresholds an implementer would pick for a fast path (block sizes, sparse/dense
+    #     switches, number of modules), with structures that matter: sparse hierarchical planted partitions (several Louvain levels,
+    #     density far below 10 %), many small modules (> 32), dense networks (> 500 edges).  Beyond n = LARGE_N the Lean model is not
+    #     run: these runs are judged by the exact Python oracles (q = Q(returned), recomputed Q along the hierarchy, start/feedback).
+    sizes_small = [12, 16, 17, 32, 33]
+    sizes_large = [64, 65, 100, 128, 129, 256, 257, 300]
+    size_variants = variants + [(r, (QTYPES[rs.randint(5)] if r == 'modularity_und_sign' else None)) for r in GIVEN
+                                if not routines or r in routines]
+    for (r, opt) in size_variants:
+        if big:
+            todo = [(nn, st_) for nn in sizes_small + sizes_large for st_ in ('planted', 'small-modules', 'dense')]
+        else:
+            # quick slice: one small size and one size from each band of large sizes per routine (every routine crosses 64, 128 and
+            # 256 in every run), a sparse planted partition always among them
+            todo = []
+            for _rep in range(2):
+                st3 = [str(x) for x in rs.permutation(['planted', 'planted', 'small-modules' if rs.rand() < .5 else 'dense'])]
+                todo += [(int(rs.choice(sizes_small)), str(rs.choice(['planted', 'dense']))),
+                         (int(rs.choice([64, 65])), st3[0]), (int(rs.choice([100, 128, 129])), st3[1]),
+                         (int(rs.choice([256, 257, 300, 257, 300])), st3[2])]
+        for nn, st_ in todo:
+            if r == 'modularity_louvain_dir' and nn > LARGE_N:
+                continue      # its open finding D6 is accepted only through the Lean replay of the as-written model
+            if st_ == 'dense' and nn > 129:
+                nn = int(rs.choice([100, 128, 129]))          # n^2/2 edges: keep the dense ones moderate
+            signed = r in SIGN or opt in ('negative_sym', 'negative_asym')
+            directed = (r in DIR or (r == 'community_louvain' and rs.rand() < .5)) and not signed
+            wmax_ = 1 if opt == 'potts' else int(rs.choice([1, 3]))
+            if st_ == 'planted':
+                A, lab = g_planted(rs, nn, int(rs.choice([3, 4, 5])), int(rs.choice([3, 4])), directed, signed, wmax_)
+            elif st_ == 'small-modules':
+                A, lab = g_planted(rs, nn, int(rs.choice([2, 3])), 1, directed, signed, wmax_, p_in=1.0, p_mid=0, n_far=nn // 6)
+            else:
+                A = rand_graph(rs, nn, float(rs.choice([.3, .6])), directed, wmax_, signed=signed)
+                lab = (rs.randint(0, max(2, nn // 8), size=nn) + 1).tolist()
+            if r in UND or r in SIGN:
+                A = np.triu(A, 1) + np.triu(A, 1).T
+            if not valid(r, A, opt):
+                continue
+            extra = {'B': custom_B(nn)} if opt == 'custom' else {}
+            if r == 'modularity_probtune_und_sign':
+                extra['p'] = '1/4'
+            ci0 = None
+            if r in TAKES_CI or r in GIVEN:
+                u = rs.rand()
+                if u < .4:
+                    ci0 = list(lab)                                           # the planted base partition (many modules)
+                elif u < .7:
+                    ci0 = [int(x) for x in np.where(rs.rand(nn) < .15, rs.randint(1, max(lab) + 1, size=nn), lab)]   # perturbed
+                elif u < .85 or r in GIVEN:
+                    ci0 = (rs.randint(0, max(2, nn // 3), size=nn) + 1).tolist()   # random, > 32 labels for the large sizes
+            g_ = ('1' if r == 'modularity_und_sign' else gam())
+            add(r, A, opt, ci0, gamma=g_, size_axis=st_, **extra)
+            if r in ('modularity_und', 'modularity_dir') and (big or nn <= 129):
+                add(r, A, opt, None, gamma=g_, size_axis=st_)                 # spectral path at this size
     # (c) modularity_und/_dir/_und_sign with a given partition, and their own spectral partition (kci=None)
     if not routines or any(g in routines for g in GIVEN):
         for r in GIVEN:
@@ -1256,6 +1387,7 @@ def run_check(ck, preds):
                        '_und routines are fed symmetric matrices (asymmetric ones only in the malformed stream, no claim)',
                        'integer weights: float arithmetic on them is exact; q is compared at 1e-9 (1e-5 for float32 storage)',
                        'the move-by-move replay needs dyadic gamma, unscaled weights and double precision; other runs are judged by the predicates and the q correspondence',
+                       'networks with more than %d nodes (size axis, up to n = 300) are judged by the exact Python oracles only; the Lean model replay and the q correspondence run for n <= %d' % (LARGE_N, LARGE_N),
                        'in-domain calls that hit the watchdog are re-tried once with 10x the budget, then counted; more than max(3, 0.5% of the cases) is a break']
     ok = ck.lean_gate(['BctVerif.Props.' + pid], extra_modules=['BctVerif.Model.Modularity'])
     if ck.tier == 'thorough' and ok:
@@ -1317,6 +1449,15 @@ def run_check(ck, preds):
             continue
         failed = {p for p, _, _ in r['fails']}
         # model: definition + coded closed form for every returned pair that passed the oracle
+        if c.get('size_axis'):
+            ck.count('size_axis_cases'); ck.count('size_axis:n=%d' % len(c['W'])); ck.count('size_axis:' + c['size_axis'])
+            if r['status'] == 'ok' and len(r['levels']) >= 2:
+                ck.count('size_axis_runs_with_2+_levels')
+        if len(c['W']) > LARGE_N:
+            # the interpreted Lean model is too slow here: exact Python oracles only (labels, q = Q(returned), recomputed Q along the
+            # hierarchy, start / feedback); say so in the evidence
+            ck.count('large_n_python_oracle_only')
+            continue
         if c.get('scale'):
             ck.count('scaled_cases'); ck.count('scale=2^%d' % c['scale'])
         if c.get('variant'):
